@@ -700,3 +700,28 @@ Proof.
   repeat split; [exact Ho | exact Hcp |].
   intros p Hp. eapply wf_storage_static; eauto. rewrite Hcp. reflexivity.
 Qed.
+
+(* ------------------------------------------------------------------------------------ *)
+(** * The object-safe adapter forwards every event unchanged                             *)
+(* ------------------------------------------------------------------------------------ *)
+Lemma adapter_identity :
+  forall a, dyn_adapter_ok a = true -> forall evs, through_adapter a evs = evs.
+Proof.
+  intros a Hok evs. unfold dyn_adapter_ok in Hok.
+  repeat (apply andb_prop in Hok; destruct Hok as [Hok ?]).
+  match goal with Hg : is_fwd_gc (da_wrap_gc a) = true |- _ => rename Hg into Hgc end.
+  match goal with Hw : is_fwd_weak (da_wrap_weak a) = true |- _ => rename Hw into Hwk end.
+  unfold through_adapter.
+  destruct (da_wrap_gc a); try discriminate. destruct (da_wrap_weak a); try discriminate.
+  induction evs as [|[p [|]] evs IH]; [reflexivity| |];
+    simpl; f_equal; exact IH.
+Qed.
+
+Lemma dyn_exact :
+  forall (T : tables) (td : stmt) (a : dyn_adapter) (i : impl),
+    dyn_adapter_ok a = true -> wf_impl T td i = true ->
+    forall c, content_ok i c -> Permutation (sem_dyn T td a i c) (all_pointers T i c).
+Proof.
+  intros T td a i Ha Hwf c Hc. unfold sem_dyn. rewrite (adapter_identity a Ha).
+  exact (proj1 (wf_exact T td i Hwf) c Hc).
+Qed.
